@@ -30,7 +30,8 @@ RULE = (
 )
 ASSUMPTIONS = [
     'lengths 1..52 points; no zero-length trajectories and no per-point strings (no builder produces them)',
-    'no value equals the NetCDF default fill value of its type (by file-format design indistinguishable from unset)',
+    'no value equals the NetCDF default fill value of its type (by file-format design indistinguishable from unset); '
+    'for the same reason an optional string stored as the empty string may come back as None',
     'a later trajectory carrying a species outside the file species dimension may be refused with ValueError '
     '(the file cannot hold it); silent loss or a raw NetCDF error is a violation',
     'a thrust mode without a value counts as 0 (documented ThrustModeValues semantics)',
